@@ -195,6 +195,11 @@ _LITRX = re.compile(r"^(-?\d+|MAX|true|false|'.*'|b'.*'|\".*\")$")
 _CHECKED = {"checked_mul": "Mul", "checked_add": "Add", "checked_sub": "Sub"}
 
 
+def _iter_canon(t):
+    """`for x in v.iter()` iterates like `for x in &v` (references being transparent in canonical strings)."""
+    return t[:-len(".iter()")] if t.endswith(".iter()") else t
+
+
 def _ckey(s):
     """Ordering of commutative operands: literals first, then lexicographic."""
     return (0 if _LITRX.match(s) else 1, s)
@@ -335,7 +340,7 @@ def canon(e, ren=None):
     if k == "Loop":
         return "loop {%s}" % c(e["body"])
     if k == "For":
-        return "for %s in %s {%s}" % (pat_canon(e["pat"], ren), c(e["iter"]), c(e["body"]))
+        return "for %s in %s {%s}" % (pat_canon(e["pat"], ren), _iter_canon(c(e["iter"])), c(e["body"]))
     if k == "Closure":
         return "|%s| %s" % (",".join(pat_canon(p, ren) for p in e["params"]), c(e["body"]))
     if k == "Block":
@@ -500,6 +505,33 @@ class Enumerator:
             return m(e)
         # generic: evaluate sub-expressions in order, then produce value canon
         subs = self.subexprs(e)
+        branching = k in ("Call", "MethodCall") and any(peel(s_).get("k") in ("If", "Match") for s_ in subs)
+        if branching:
+            # an argument chosen by `if` / `match`: the call is made with the value of the branch taken
+            states = [([], [])]          # (events, argument values)
+            res = []
+            for s_ in subs:
+                nxt = []
+                alts = None
+                for evs, vals in states:
+                    if alts is None:
+                        alts = self.expr(s_)
+                    for o in alts:
+                        self._budget()
+                        if o.exit != "fall":
+                            res.append(PathOut(evs + o.events, o.exit, o.val, o.label, o.valnode))
+                        else:
+                            nxt.append((evs + o.events, vals + [o.val]))
+                states = nxt
+            for evs, vals in states:
+                if k == "MethodCall":
+                    v = "%s.%s(%s)" % (vals[0], e["name"], ",".join(vals[1:]))
+                else:
+                    f = peel(e["f"])
+                    fn = path_canon(f, self.ren) if f.get("k") == "Path" else vals[0]
+                    v = "%s(%s)" % (fn, ",".join(vals if f.get("k") == "Path" else vals[1:]))
+                res.append(PathOut(evs + [Ev("call", v, self.callee_name(e), node=e)], "fall", v, valnode=e))
+            return res
         outs = [PathOut([], "fall", "")]
         for s in subs:
             outs = self.seq(outs, lambda s=s: self.expr(s))
@@ -554,20 +586,21 @@ class Enumerator:
                 for o in body_paths(some_clo):
                     self._budget()
                     val = ("Some(%s)" % o.val) if name == "map" and o.exit == "fall" else o.val
+                    vn = o.valnode if (name != "map" and o.valnode is not None) else e
                     if dflt is not None:
                         for d in dflt:
                             if d.exit == "fall":
-                                res.append(PathOut(pre + d.events + [ev_some] + o.events, o.exit, val, o.label, e))
+                                res.append(PathOut(pre + d.events + [ev_some] + o.events, o.exit, val, o.label, vn))
                     else:
-                        res.append(PathOut(pre + [ev_some] + o.events, o.exit, val, o.label, e))
+                        res.append(PathOut(pre + [ev_some] + o.events, o.exit, val, o.label, vn))
                 if name in ("map", "and_then"):
                     res.append(PathOut(pre + [ev_none], "fall", "None", None, e))
                 elif name == "map_or":
                     for d in dflt:
-                        res.append(PathOut(pre + d.events + [ev_none], d.exit, d.val, d.label, e))
+                        res.append(PathOut(pre + d.events + [ev_none], d.exit, d.val, d.label, d.valnode if d.valnode is not None else e))
                 else:
                     for d in body_paths(args[0]):
-                        res.append(PathOut(pre + [ev_none] + d.events, d.exit, d.val, d.label, e))
+                        res.append(PathOut(pre + [ev_none] + d.events, d.exit, d.val, d.label, d.valnode if d.valnode is not None else e))
             else:   # or_else
                 res.append(PathOut(pre + [ev_some], "fall", X, None, e))
                 for o in body_paths(args[0]):
@@ -878,6 +911,7 @@ class Enumerator:
             if io.exit != "fall":
                 res.append(io)
                 continue
+            io = PathOut(io.events, io.exit, _iter_canon(io.val), io.label, io.valnode)
             res.append(PathOut(io.events + [Ev("for-skip", p, io.val, node=e)], "fall", ""))
             hv = self._havoc(e["body"])
             for o in self.expr(e["body"]):
